@@ -74,6 +74,12 @@ enum class WebSocketState
 ///   * rc->m (leaf, inside ReconnectControl) guards the reconnect worker's wakeup
 ///     state.
 ///   * _dataMutex (leaf) guards the receive/fragment buffers + negotiated proto.
+///   * _sendMutex guards _closeSent and makes "test/set _closeSent + hand the
+///     frame to the transport" one step, so a TEXT/BINARY/PING frame can never
+///     follow a CLOSE frame onto the wire (RFC 6455 §5.5.1). ORDER: _sendMutex ->
+///     _transportMutex (taken inside sendRawBytes), never the reverse; it is held
+///     across the enqueue-only sendAsync() but never across a user callback,
+///     stop()/close()/join() or any other lock.
 ///   * The three leaf locks are mutually independent — never nested, never held
 ///     simultaneously, never held across
 ///     stop()/close()/sendAsync()/reset()/doConnect()/join()/weak.lock().
@@ -343,7 +349,7 @@ public:
     auto frame = WebSocketFrame::makeText(text);
     generateMaskKey(frame.maskKey);
     auto wire = frame.serialize(true); // client MUST mask
-    sendRawBytes(wire.data(), wire.size());
+    sendUnlessCloseSent(wire.data(), wire.size());
   }
 
   void sendBinary(const std::vector<std::uint8_t>& data)
@@ -352,7 +358,7 @@ public:
     auto frame = WebSocketFrame::makeBinary(data);
     generateMaskKey(frame.maskKey);
     auto wire = frame.serialize(true);
-    sendRawBytes(wire.data(), wire.size());
+    sendUnlessCloseSent(wire.data(), wire.size());
   }
 
   void sendPing(const std::vector<std::uint8_t>& payload = {})
@@ -361,7 +367,7 @@ public:
     auto frame = WebSocketFrame::makePing(payload);
     generateMaskKey(frame.maskKey);
     auto wire = frame.serialize(true);
-    sendRawBytes(wire.data(), wire.size());
+    sendUnlessCloseSent(wire.data(), wire.size());
   }
 
   void sendClose(std::uint16_t code = 1000, const std::string& reason = "")
@@ -373,6 +379,10 @@ public:
     auto frame = WebSocketFrame::makeClose(code, reason);
     generateMaskKey(frame.maskKey);
     auto wire = frame.serialize(true);
+    // Record the CLOSE and enqueue it in ONE _sendMutex critical section: every
+    // later sendText/sendBinary/sendPing is dropped (see sendUnlessCloseSent).
+    std::lock_guard<std::mutex> lock(_sendMutex);
+    _closeSent = true;
     sendRawBytes(wire.data(), wire.size());
   }
 
@@ -550,6 +560,10 @@ private:
     }
     _upgradeComplete.store(false);
     _closeEchoed.store(false); // re-arm the one-shot CLOSE echo for this connection
+    {
+      std::lock_guard<std::mutex> lock(_sendMutex);
+      _closeSent = false; // no CLOSE sent on this connection yet
+    }
 
     // Register the global callbacks on the LOCAL transport. Each weak-captures
     // the client (NEVER an owning shared_ptr<Transport> of its own _transport —
@@ -1087,6 +1101,10 @@ private:
         generateMaskKey(frame.maskKey);
         auto wire = frame.serialize(true);
         auto shared = std::make_shared<std::vector<std::uint8_t>>(std::move(wire));
+        // Same _sendMutex step as sendClose(): a sender that snapshotted the
+        // transport before the reset above must not enqueue behind this CLOSE.
+        std::lock_guard<std::mutex> sendLock(_sendMutex);
+        _closeSent = true;
         t->sendAsync(sid, shared->data(), shared->size(),
                      [shared](SessionId, const SendResult&) {});
       }
@@ -1198,6 +1216,19 @@ private:
     }
   }
 
+  /// \brief Hand a TEXT/BINARY/PING frame to the transport unless a CLOSE frame
+  /// has already been sent on this connection. The _closeSent test and the
+  /// enqueue are atomic under _sendMutex w.r.t. sendClose()/teardownTransport()
+  /// (which set _closeSent and enqueue the CLOSE under the same mutex), so the
+  /// frame is either queued BEFORE the CLOSE or dropped. PONG replies to a peer
+  /// PING are control frames and keep using sendRawBytes().
+  void sendUnlessCloseSent(const std::uint8_t* data, std::size_t len)
+  {
+    std::lock_guard<std::mutex> lock(_sendMutex);
+    if (_closeSent) return; // drop: nothing but control frames after our CLOSE
+    sendRawBytes(data, len);
+  }
+
   void generateMaskKey(std::uint8_t key[4])
   {
     crypto::SecureRng::fill(key, 4);
@@ -1277,6 +1308,14 @@ private:
   // CLOSE is echoed, re-armed in doConnect() per connection. Replaces the dead
   // _state==CLOSING guard (CLOSING is never stored — it is a reserved state).
   std::atomic<bool> _closeEchoed{false};
+
+  // Close-sent gate: set (under _sendMutex, together with the enqueue of the
+  // CLOSE frame) by every path that emits a CLOSE — sendClose(), the CLOSE echo
+  // (via sendClose()) and teardownTransport(gracefulClose) — tested by
+  // sendText/sendBinary/sendPing via sendUnlessCloseSent(), re-armed per
+  // connection in doConnect().
+  std::mutex _sendMutex; // ORDER: _sendMutex -> _transportMutex, never the reverse.
+  bool _closeSent = false; // _sendMutex
 
   // Fragment reassembly (protected by _dataMutex)
   std::vector<std::uint8_t> _fragmentBuffer;
